@@ -538,6 +538,9 @@ def cli_oracle(data, opts, expected_asm, accepted, plan=None, inp_missing=False,
     return out, r
 
 
+NON_ASCII_NAME = re.compile(r'[A-Za-z_][A-Za-z0-9_]*[^\x00-\x7f\W]')
+
+
 def check_assembles(asm_bytes, text):
     """success => complete assembly the strict assembler accepts (any argv shape)."""
     lines = asm_bytes.split(b'\n')
@@ -549,6 +552,10 @@ def check_assembles(asm_bytes, text):
             continue
         except AsmError as e:
             if 'unreasonably large for the simulator' in str(e):
+                return None
+            if NON_ASCII_NAME.search(text):
+                # hidc accepts names such as `gé` (ASCII start, \w continuation) and emits them verbatim as
+                # labels; whether the Sphinx assembler takes non-ASCII labels is not known here (DESIGN 7)
                 return None
             return ('asm-error', str(e))
     return None
